@@ -41,6 +41,10 @@ pub fn gen_cfg(r: &mut Rng, p: &CfgProfile) -> WorldCfg {
     }
     cfg.key_seed = r.next_u64();
     cfg.dev_seed = r.next_u64();
+    if frontend == Frontend::Nb && r.chance(1, 6) {
+        // the board has been up for 24.8 or 49.7 days: its 32-bit millisecond clock is about to change sign / wrap
+        cfg.clock_epoch = r.range(1, 3) as u8;
+    }
     if r.chance(1, 12) {
         // the default one-entry downlink queue under an application that rarely collects its downlinks
         cfg.lazy_app = true;
